@@ -132,6 +132,13 @@ CLAIMED["C08"] = (
     "Trusted: Lean kernel (+propext, Classical.choice, Quot.sound); the hand-written model; timers fire at their due time (virtual loop; real timer lateness shifts the deadline and is not modelled); same-instant timers of different keys fire in asyncio heap order (taken from the observation).",
 )
 
+CLAIMED["C12"] = (
+    "DESIGN.md section 5, C12",
+    "Lean 4 theorem generic over any pure step function (resume = foldl_append), instantiated for every aggregation model of C06/C07/C11, + the correspondence that carries the weight: real pipelines resumed from the un-copied state object emitted by the first pipeline, at every cut point, under four interleavings of the two pipelines, with snapshot checks of every emitted state",
+    "Proof of the model statement (resume, resume_with_state, resume_many, resume_fallible; instantiations resume_rolling_count/time, resume_expanding, resume_ewm, resume_cumulative, resume_aggregation, resume_window, resume_windowed_groupby; witnesses that hidden state / a dropped old_wt break it). It is simple because the models are pure functions of the emitted state; what can really go wrong in the code - state kept outside the emitted state, aliasing between the emitted object and the one the first pipeline keeps mutating, an emitted state that does not contain everything, start= ignored on some path - is what the correspondence exercises.",
+    "Trusted: Lean kernel (+propext, Classical.choice, Quot.sound); the models of C06/C07/C11; for families without with_state (reductions, groupby sum/count) the state is read from the accumulate node; groupby size/var through the private GroupBy._accumulate; std()/apply() with with_state=True cannot digest the tuple (API limitation, recorded as assumption).",
+)
+
 NOT_YET = {}
 
 
